@@ -8,6 +8,22 @@ COMMON_TRUST = [
 ]
 
 PROPS = {
+    'C09': dict(
+        units=['timeout'], level='proof',
+        not_covered=[
+            'elapsed (virtual) time: that tokio::time::sleep(d) fires after exactly d and the grid of (caller timeout, configured timeout, handler latency) triples - the timer is an assumed primitive (A-tokio-01)',
+            'mapping of TimeoutExpired to a CANCELLED "Timeout expired" status goes through dyn Error source chains (Status::from_error / find_status_in_source_chain, RecoverError): not under contract',
+            'Request::set_timeout (duration_to_grpc_timeout(..).parse::<MetadataValue>().unwrap()) and the server wiring of GrpcTimeout are not under contract',
+            'is_ascii_digits (iterator adapter) is a Kani-complete harness of the Kani lane, linked as a callee contract; str::parse::<u64>, str::split_at, Display of integers are assumed std contracts (A-std-parse-01, A-std-str-04, A-fmt-01)',
+        ]),
+    'C08': dict(
+        units=['metadata', 'reqresp', 'status'], level='proof',
+        not_covered=[
+            'value preservation rests on the assumed http::HeaderMap multimap contract (A-http-20..28) and the base64 inverse axioms (A-b64-01: both engines decode padded and unpadded input); tonic/src/util.rs engine configuration is represented by the Engine shim',
+            'end-to-end transport of the header block (hyper/h2/hpack)',
+            'get_all / entry / iter_mut / keys / values accessors, MetadataKey FromStr, MetadataValue FromStr/to_str and the String impls of the sealed key traits are not under contract in this build',
+            'the repr(transparent) pointer casts unchecked_from_header_*_ref are trusted (A-tonic-unsafe-01)',
+        ]),
     'C05': dict(
         units=['compression', 'decode', 'encode'], level='proof',
         not_covered=[
